@@ -125,3 +125,44 @@ Definition written (m : option cv) (p : path) (s : string) : Prop := cv_get p m 
 Definition unwritten (m : option cv) (p : path) : Prop := cv_get p m = None \/ cv_get p m = Some CNull.
 (* [p] addresses a plain leaf of the typed configuration *)
 Definition leaf_at (d : tv) (p : path) (s : string) : Prop := tv_get p d = Some (VSc s).
+
+(* ---- kinds -------------------------------------------------------------------------------- *)
+(* the decoded value is the value the user wrote (numbers as numbers, whatever the numeric kind;
+   a string for a string list is the documented comma-split) *)
+Definition same_value (w : wv) (r : dres) : Prop :=
+  match w, r with
+  | WBool b, DBool b' => b = b'
+  | WInt z, DNum z' f => z = z' /\ f = false
+  | WFloat z f, DNum z' f' => z = z' /\ f = f'
+  | WStr s, DStr s' => s = s'
+  | WStr s, DList l => l = split_comma s
+  | WStr _, DOther => True      (* duration text, parsed by time.ParseDuration (outside the model) *)
+  | WList, DOther | WMap, DOther => True
+  | _, _ => False
+  end.
+
+(* the written value belongs to another family of kinds than the field *)
+Definition family_mismatch (k : lkind) (w : wv) : bool :=
+  match k, w with
+  | _, WNull => false
+  | KBool, WBool _ => false
+  | KString, WStr _ => false
+  | (KInt | KUint | KFloat | KDuration), (WInt _ | WFloat _ _) => false
+  | KDuration, WStr _ => false
+  | KStrSlice, (WStr _ | WList) => false
+  | KStruct, WMap => false
+  | _, _ => true
+  end.
+
+(* ---- round trip --------------------------------------------------------------------------- *)
+(* [compat d v]: the typed configuration [v] has the shape of the defaults [d] (same keys in the
+   same order, keys unique at every level) and carries no omitempty-zero ambiguity: wherever a
+   field of [v] is left out of the effective configuration (omitempty and zero) the default of
+   that field already is that value. *)
+Inductive compat : otv -> otv -> Prop :=
+| C_sc o z s o' z' s' : compat (OSc o z s) (OSc o' z' s')
+| C_rec o fd o' fv :
+    NoDup (map fst fv) ->
+    Forall2 (fun d v => fst d = fst v /\ compat (snd d) (snd v) /\
+                        (o_omitted (snd v) = true -> o_strip (snd d) = o_strip (snd v))) fd fv ->
+    compat (ORec o fd) (ORec o' fv).
